@@ -5,7 +5,7 @@ from vlib import Check, MachineryError
 
 
 def run(tier, replay=None):
-    c = Check("C08", tier)
+    c = Check("C08", tier, level="exploration")
     c.rule = ("one scenario = one HTTP request sent through the real router (livesim2: plain / DRM-configured / request-limited "
               "server; CMAF-ingest receiver: parsing and raw mode) in a child process; the requests are the concretisation "
               "(seeded representatives per value class) of every element of the abstract request space enumerated by TLC "
